@@ -13,7 +13,8 @@ Record sten := mkSten {
   s_cells : list nat;                       (* row-major *)
   s_undo : option (list Z * list nat);      (* the tensor a pending lazy transpose came from *)
   s_pending : nat;                          (* lazy transposes since the data last moved *)
-  s_view : bool                             (* obtained by slicing *)
+  s_view : bool;                            (* obtained by slicing *)
+  s_cm : bool                               (* declared column-major (matters to Reshape only) *)
 }.
 Record sstate := mkSS { s_vals : list V; s_tens : list sten }.
 
@@ -32,7 +33,7 @@ Definition spec_new (ς : sstate) (order : Z) (sh : list Z) (data : list V) : op
   if negb (zlen data =? size sh) || negb (pos_shapeb sh) then None else
   let l := if order =? 1 then map (fun c => znth vzero data (rank_cm sh c)) (coords sh) else data in
   let '(ς1, cells) := s_alloc ς l in
-  Some (s_add ς1 (mkSten sh cells None 0 false)).
+  Some (s_add ς1 (mkSten sh cells None 0 false (negb (order =? 0)))).
 
 (* --- element access --- *)
 Definition spec_at (ς : sstate) (t : nat) (c : list Z) : option (res V) :=
@@ -113,7 +114,7 @@ Definition spec_slice (ς : sstate) (t : nat) (sl : list slice) (hint : list Z)
     | None => Some None                                   (* rejected *)
     | Some (nsh, cells, dr) =>
       let sh := if drop_match nsh dr hint then hint else drop_all nsh dr in
-      Some (Some (s_add ς (mkSten sh cells None 0 true)))
+      Some (Some (s_add ς (mkSten sh cells None 0 true (s_cm x))))
     end
   end.
 
@@ -152,10 +153,10 @@ Definition spec_T (ς : sstate) (t : nat) (axes : list Z) : option (option sstat
     match s_undo x with
     | Some (sh0, cells0) =>
       if list_eqb nsh sh0 && list_eqb (map Z.of_nat cells) (map Z.of_nat cells0)
-      then Some (Some (sset ς t (mkSten sh0 cells0 None 0 (s_view x))))
-      else Some (Some (sset ς t (mkSten nsh cells (Some (s_shape x, s_cells x)) (S (s_pending x)) (s_view x))))
+      then Some (Some (sset ς t (mkSten sh0 cells0 None 0 (s_view x) (s_cm x))))
+      else Some (Some (sset ς t (mkSten nsh cells (Some (s_shape x, s_cells x)) (S (s_pending x)) (s_view x) (s_cm x))))
     | None =>
-      Some (Some (sset ς t (mkSten nsh cells (Some (s_shape x, s_cells x)) (S (s_pending x)) (s_view x))))
+      Some (Some (sset ς t (mkSten nsh cells (Some (s_shape x, s_cells x)) (S (s_pending x)) (s_view x) (s_cm x))))
     end
   end.
 
@@ -167,7 +168,7 @@ Definition spec_UT (ς : sstate) (t : nat) : option sstate :=
   | Some x =>
     match s_pending x, s_undo x with
     | O, _ => Some ς
-    | S O, Some (sh, cells) => Some (sset ς t (mkSten sh cells None 0 (s_view x)))
+    | S O, Some (sh, cells) => Some (sset ς t (mkSten sh cells None 0 (s_view x) (s_cm x)))
     | _, _ => None
     end
   end.
@@ -176,7 +177,7 @@ Definition spec_UT (ς : sstate) (t : nat) : option sstate :=
 Definition spec_transpose (ς : sstate) (t : nat) : option sstate :=
   match sget ς t with
   | None => None
-  | Some x => Some (sset ς t (mkSten (s_shape x) (s_cells x) None 0 (s_view x)))
+  | Some x => Some (sset ς t (mkSten (s_shape x) (s_cells x) None 0 (s_view x) (s_cm x)))
   end.
 
 (* --- whole-tensor writes: exactly the tensor's own cells --- *)
@@ -193,12 +194,12 @@ Definition spec_fill (ς : sstate) (t : nat) (v : V) : option sstate :=
   end.
 
 (* --- copies: fresh cells, same shape, same logical elements --- *)
-Definition spec_copy_of (ς : sstate) (t : nat) : option (sstate * nat) :=
+Definition spec_copy_of (ς : sstate) (t : nat) (keep_order : bool) : option (sstate * nat) :=
   match sget ς t with
   | None => None
   | Some x =>
     let '(ς1, cells) := s_alloc ς (slogical ς x) in
-    Some (s_add ς1 (mkSten (s_shape x) cells None 0 false))
+    Some (s_add ς1 (mkSten (s_shape x) cells None 0 false (keep_order && s_cm x)))
   end.
 
 (* Copy(dst, src): dst's cells receive src's logical elements in logical order (equal sizes) *)
@@ -208,6 +209,27 @@ Definition spec_copy_into (ς : sstate) (dt st : nat) : option sstate :=
     if negb (length (s_cells d) =? length (s_cells s))%nat then None
     else Some (mkSS (write_cells (s_vals ς) (s_cells d) (slogical ς s)) (s_tens ς))
   | _, _ => None
+  end.
+
+(* --- reshape: equal total size; the flat element sequence in the tensor's OWN data order is
+   preserved and no element changes.  [refused]: the implementation refused; that is permitted
+   for views (non-contiguous views may be refused outright) *)
+Definition coords_cm (s : list Z) : list (list Z) := map (@rev Z) (coords (rev s)).
+
+Definition spec_reshape (ς : sstate) (t : nat) (dims : list Z) (refused : bool) : option (option sstate) :=
+  match sget ς t with
+  | None => None
+  | Some x =>
+    if negb (size (s_shape x) =? size dims) then Some None
+    else if negb (pos_shapeb dims) then None
+    else if refused && s_view x then Some None
+    else
+      let cells' :=
+        if s_cm x then
+          let flat := map (fun c => nth (Z.to_nat (rank_rm (s_shape x) c)) (s_cells x) O) (coords_cm (s_shape x)) in
+          map (fun c => nth (Z.to_nat (rank_cm dims c)) flat O) (coords dims)
+        else s_cells x in
+      Some (Some (sset ς t (mkSten dims cells' None 0 (s_view x) (s_cm x))))
   end.
 
 End Spec.
